@@ -12,6 +12,7 @@ known findings (the behaviour is deliberate and cheap, a repair costs a solver c
 from __future__ import annotations
 
 import ast
+import re
 
 from .. import guards, util
 from ..core import norm, walk_no_nested
@@ -104,4 +105,40 @@ def c26_modelfold(R):
         "beyond any string Z3 returns an If over constants, and eval(StrIndexOf(x, t, 2**64 - 1)) raised 'unknown decl op "
         "Z3_OP_INT2BV' although the expression folds to -1 concretely",
         construct="_primitive_from_model: z3.simplify between model.eval and the value reader",
+    )
+
+
+@rule(
+    "C16.clonecore",
+    props=("C16", "C14"),
+    floor=1,
+    family="SIB",
+    desc="BackendZ3._unsat_core matches the members of Z3's core against both halves of every tracked assertion "
+    "`Implies(literal, formula)`: a native solver obtained by clone_solver (translate) - which is what a branch with "
+    "pending constraints continues on - reports the tracked formulas, not the literals",
+)
+def c16_clonecore(R):
+    tree = R.tree
+    m = tree.mod(Z3B)
+    fn = util.resolve_locals(tree.func_inlined(Z3B, "BackendZ3._unsat_core"))
+    clones = tree.func(Z3B, "BackendZ3.clone_solver")
+    uses_translate = any(isinstance(c, ast.Call) and isinstance(c.func, ast.Attribute) and c.func.attr == "translate" for c in ast.walk(clones))
+    if not uses_translate:
+        R.ok(m, clones, "clone_solver does not translate: literals survive")
+        return
+    tests = [x for x in ast.walk(fn) if isinstance(x, ast.Compare) and len(x.ops) == 1 and isinstance(x.ops[0], ast.In)]
+    halves = set()
+    for t in tests:
+        mm = re.search(r"\.children\(\)\[(\d)\]$", ast.unparse(t.left))
+        if mm:
+            halves.add(mm.group(1))
+    R.check(
+        {"0", "1"} <= halves,
+        m,
+        fn,
+        "core members matched by literal and by formula",
+        f"_unsat_core looks for the members of the core only among the halves {sorted(halves)} of the tracked assertions; a "
+        f"cloned solver (translate) reports the formulas themselves, so after add(c1); is_true(..); add(c2); branch() the core "
+        f"came back empty on both sides although c1 alone is unsatisfiable",
+        construct="_unsat_core: which half of a tracked assertion is looked up in the core",
     )
